@@ -20,7 +20,8 @@ EXPLANATION = (
     "emits carries a position that derives from the construct being lowered; (R7) argument errors of "
     "user SUB / FUNCTION calls are positioned at the call; (R8) the row table counts a CR LF as one line end "
     "wherever the LF exists (the guard of the look-ahead is not stronger than `in range`; shared with C09.R13); (R9) error_envelope only moves positions; (R10) the conversions of a file or string into the input view hand the text over verbatim - no line-splitting or trimming std call on the way, which would merge or drop line ends before rows are counted."
-    " (R11) no and_then mapper that can make a ParserError of its own is applied to a seq3..seq6 parser: an error made up after a whole multi-part construct was consumed is reported behind it.")
+    " (R11) no and_then mapper that can make a ParserError of its own is applied to a seq3..seq6 parser: an error made up after a whole multi-part construct was consumed is reported behind it."
+    " (R12 = C20.C with clause P) no parser puts the input position back and then returns an error that is not known to be soft: a fatal error is reported where it was found.")
 NOT_DECIDED = ["that row/column numbers are correct for arbitrary layouts and line endings (value-level)"]
 
 
